@@ -1123,7 +1123,7 @@ def c17(tier, rep):
     # on the caller
     run_threads(rep, tier, "c17", "nested thread-spawning macros")
     rep.set("distinct_nontrivial", len(dp) + len(np_) + len(sp) + len(n3))
-    rep.set("rule", "(d) hostile scope: every macro invoked where the caller's scope has its own items named std / core / alloc / tokio / futures; (c) sibling independence: the same deep capture-rich try branch alone and next to 1, 2, 11 shallow / equally deep / deeper siblings at every side, every subset of its steps failing — value and trace equal the reference; (a) dense programs: B branches x A actions per step x 2 steps with a block capture carrying a distinct constant on EVERY action for (B, A) over {2,11,12}^2 (thorough: + 24), 13-step branches (__sr10..__sr12), 13 and 24 branches in the thread-spawning kinds (__j10 vs __j1), fold/try_fold captures with operand index 0 and 1 in 12 branches — any clash of generated names makes a binding shadow another and changes a constant / the trace; (b) nesting: EVERY ordered pair of the 12 macros with the inner macro as operand value, inside a block capture and inside a handler (async inner in sync context through a nesting-free block_on, task-spawning inner inside a tokio runtime context); (b3) depth 3: every ordered TRIPLE of the 12 macros, innermost inside the initial operand / a block capture of the middle macro, middle inside an operand / capture / handler of the outer (quick: position pair (capture, operand) for all 1728 triples + all six position pairs over 4 representative middle/inner macros; thorough: all six pairs whenever the middle macro is one of the 4 representatives; triples in which a tokio task would be spawned from a plain std thread are not programs); oracle: value + trace (per-branch projections) equal the reference applied recursively; every program is distinct and non-trivial by construction (distinct constants, logging callbacks)")
+    rep.set("rule", "(d) hostile scope: every macro invoked where the caller's scope has its own items named std / core / alloc / tokio / futures; (c) sibling independence: the same deep capture-rich try branch alone and next to 1, 2, 11 shallow / equally deep / deeper siblings at every side, every subset of its steps failing — value and trace equal the reference; (a) dense programs: B branches x A actions per step x 2 steps with a block capture carrying a distinct constant on EVERY action for (B, A) over {2,11,12}^2 (thorough: + 24), 13-step branches (__sr10..__sr12), 13 and 24 branches in the thread-spawning kinds (__j10 vs __j1), fold/try_fold captures with operand index 0 and 1 in 12 branches — any clash of generated names makes a binding shadow another and changes a constant / the trace; (b) nesting: EVERY ordered pair of the 12 macros with the inner macro as operand value, inside a block capture and inside a handler (async inner in sync context through a nesting-free block_on, task-spawning inner inside a tokio runtime context); (b3) depth 3: every ordered TRIPLE of the 12 macros, innermost inside the initial operand / a block capture of the middle macro, middle inside an operand / capture / handler of the outer (quick: position pair (capture, operand) for all 1728 triples + all six position pairs over 4 representative middle/inner macros; thorough: all triples x all six pairs; triples in which a tokio task would be spawned from a plain std thread are not programs); oracle: value + trace (per-branch projections) equal the reference applied recursively; every program is distinct and non-trivial by construction (distinct constants, logging callbacks)")
     sample_family(rep, np_, fr2)
 
 
